@@ -18,6 +18,64 @@ import (
 
 type fact struct{ a, b, c string }
 
+// skel: the decision skeleton of one function — every branching construct in source order, with what a guard's branch ends in
+type skel struct {
+	file, fn string
+	conds    []string
+}
+
+func branchEnd(b *ast.BlockStmt) string {
+	if b == nil || len(b.List) == 0 {
+		return ""
+	}
+	switch l := b.List[len(b.List)-1].(type) {
+	case *ast.ReturnStmt:
+		if len(l.Results) > 0 && exprStr(l.Results[len(l.Results)-1]) != "nil" {
+			return " => return " + exprStr(l.Results[len(l.Results)-1])
+		}
+		return " => return"
+	case *ast.BranchStmt:
+		return " => " + l.Tok.String()
+	case *ast.ExprStmt:
+		if c, ok := l.X.(*ast.CallExpr); ok && exprStr(c.Fun) == "panic" {
+			return " => panic"
+		}
+	}
+	return ""
+}
+
+func skeletonOf(body *ast.BlockStmt) []string {
+	var out []string
+	ast.Inspect(body, func(n ast.Node) bool {
+		switch n := n.(type) {
+		case *ast.FuncLit:
+			out = append(out, "func literal")
+		case *ast.IfStmt:
+			out = append(out, "if "+exprStr(n.Cond)+branchEnd(n.Body))
+		case *ast.SwitchStmt:
+			out = append(out, "switch "+exprStr(n.Tag))
+		case *ast.TypeSwitchStmt:
+			out = append(out, "type switch")
+		case *ast.CaseClause:
+			var es []string
+			for _, e := range n.List {
+				es = append(es, exprStr(e))
+			}
+			if len(es) == 0 {
+				out = append(out, "default")
+			} else {
+				out = append(out, "case "+strings.Join(es, ", "))
+			}
+		case *ast.ForStmt:
+			out = append(out, "for "+exprStr(n.Cond))
+		case *ast.RangeStmt:
+			out = append(out, "range "+exprStr(n.X))
+		}
+		return true
+	})
+	return out
+}
+
 func exprStr(e ast.Expr) string {
 	if e == nil {
 		return ""
@@ -37,6 +95,7 @@ func (fakeImporter) Import(path string) (*types.Package, error) {
 func main() {
 	repo := flag.String("repo", "/repo", "source tree")
 	out := flag.String("out", "", "output directory (Facts.lean is written there) or a .lean file; empty = stdout")
+	expect := flag.String("expect", "", "also write the decision skeletons as the committed expectation to this .lean file")
 	flag.Parse()
 	var dirs []string
 	filepath.Walk(*repo, func(p string, fi os.FileInfo, err error) error {
@@ -51,6 +110,7 @@ func main() {
 	})
 	sort.Strings(dirs)
 	var pkgVars, keeperFields, clockCalls, goStmts, mapRanges, genesisFields, storePrefixes, blockers, coinCalls, msgHandlers, appWiring []fact
+	var skeleton []skel
 	for _, rel := range dirs {
 		fset := token.NewFileSet()
 		pkgs, err := parser.ParseDir(fset, filepath.Join(*repo, rel), func(fi os.FileInfo) bool {
@@ -165,6 +225,9 @@ func main() {
 						if fn == "BeginBlocker" || fn == "EndBlocker" || fn == "EndBlock" || fn == "BeginBlock" {
 							blockers = append(blockers, fact{rel, base, fn})
 						}
+						if d.Body != nil && base != "genesis.pb.go" {
+							skeleton = append(skeleton, skel{rel + "/" + base, fn, skeletonOf(d.Body)})
+						}
 						if d.Body == nil || !inScope {
 							continue
 						}
@@ -260,6 +323,64 @@ func main() {
 	emit("appWiring", "app/app.go: relative order of the six storage modules in begin-blockers, end-blockers and InitGenesis; arguments of SetHooks", appWiring)
 	emit("blockers", "begin/end blocker entry points (directory, file, function)", blockers)
 	b.WriteString("end SaoVerif.Generated\n")
+	// the decision skeletons go to a file of their own (and, with -expect, to the committed expectation)
+	sort.SliceStable(skeleton, func(i, j int) bool {
+		if skeleton[i].file != skeleton[j].file {
+			return skeleton[i].file < skeleton[j].file
+		}
+		return skeleton[i].fn < skeleton[j].fn
+	})
+	mangle := func(f string) string {
+		var sb strings.Builder
+		for _, c := range f {
+			if (c >= 'a' && c <= 'z') || (c >= 'A' && c <= 'Z') || (c >= '0' && c <= '9') {
+				sb.WriteRune(c)
+			} else {
+				sb.WriteByte('_')
+			}
+		}
+		return sb.String()
+	}
+	skelText := func(ns, doc string) string {
+		var sb strings.Builder
+		fmt.Fprintf(&sb, "/-! %s\n    One definition per source file: (function, branching constructs in source order — `if cond => how the branch ends`,\n    switch / case, loops). -/\nnamespace %s\n\n", doc, ns)
+		for i := 0; i < len(skeleton); {
+			j := i
+			for j < len(skeleton) && skeleton[j].file == skeleton[i].file {
+				j++
+			}
+			fmt.Fprintf(&sb, "def %s : List (String × List String) := [\n", mangle(skeleton[i].file))
+			for k := i; k < j; k++ {
+				sep := ","
+				if k == j-1 {
+					sep = ""
+				}
+				fmt.Fprintf(&sb, "  (%q, [", skeleton[k].fn)
+				for m, c := range skeleton[k].conds {
+					if m > 0 {
+						sb.WriteString(", ")
+					}
+					fmt.Fprintf(&sb, "%q", c)
+				}
+				fmt.Fprintf(&sb, "])%s\n", sep)
+			}
+			sb.WriteString("]\n\n")
+			i = j
+		}
+		fmt.Fprintf(&sb, "end %s\n", ns)
+		return sb.String()
+	}
+	writeIfChanged := func(target, text string) {
+		if old, err := os.ReadFile(target); err == nil && string(old) == text {
+			return
+		}
+		if err := os.WriteFile(target, []byte(text), 0o644); err != nil {
+			panic(err)
+		}
+	}
+	if *expect != "" {
+		writeIfChanged(*expect, skelText("SaoVerif.Expected.Skel", "The decision skeletons the model was written and validated against (written by `extract -expect`, committed; compared with the regenerated ones by the `Cxx_decision_skeleton_as_modelled` theorems)."))
+	}
 	if *out == "" {
 		fmt.Print(b.String())
 		return
@@ -267,6 +388,7 @@ func main() {
 	target := *out
 	if !strings.HasSuffix(target, ".lean") {
 		os.MkdirAll(target, 0o755)
+		writeIfChanged(filepath.Join(target, "Skeleton.lean"), skelText("SaoVerif.Generated.Skel", "GENERATED by /verif/harness/cmd/extract from the Go source tree on every check run. Do not edit."))
 		target = filepath.Join(target, "Facts.lean")
 	}
 	// leave the file alone when nothing changed, so that lake does not rebuild its dependants
